@@ -83,8 +83,13 @@ GrowCalls == {[op |-> "Push", xs |-> xs] : xs \in Batches} \cup {[op |-> "Pop"],
 
 MarshalCalls == {[op |-> "Marshal", kind |-> k, xs |-> xs] : k \in {"AND", "LIST"}, xs \in {<<>>, <<"a">>, <<"a", "nil">>}}
 
+ClosureCalls ==
+       {[op |-> "SetValidityPolicy", mode |-> m] : m \in {"none", "ok", "bad"}}
+  \cup {[op |-> o, on |-> b] : o \in {"SetPresentationPolicy", "SetEqualityPolicy", "SetUnmarshaler", "SetMarshaler"}, b \in BOOLEAN}
+
 Calls(s) ==
        (IF "list" \in Fams THEN ListCalls(s) ELSE {})
+  \cup (IF "closures" \in Fams THEN ClosureCalls ELSE {})
   \cup (IF "grow" \in Fams THEN GrowCalls ELSE {})
   \cup (IF "marshal" \in Fams THEN MarshalCalls ELSE {})
   \cup (IF "opts" \in Fams THEN OptCalls ELSE {})
@@ -216,6 +221,16 @@ PolicyDecides(s, t) ==
         /\ (Full(s.e, s.cap) => t.ret = <<>>)
         /\ (t.s.err # s.err => \E n \in 1..Len(t.ret) : t.ret[n] \notin s.acc)
 
+\* C14: installed closures decide; removing one restores the built-in behaviour;
+\* BASIC refuses a presentation policy, records an error and renders empty
+ClosuresDecide(s, t) ==
+  (t.on = "st" /\ Usable(s)) =>
+    /\ (t.c.op = "SetPresentationPolicy" /\ s.kind = "BASIC" => (~t.s.ppol /\ t.s.err = "set" /\ Obs(t.s).strsrc = "empty"))
+    /\ (t.c.op = "SetValidityPolicy" => (Obs(t.s).valid = "err") = (t.c.mode = "bad"))
+    /\ (t.c.op = "SetValidityPolicy" /\ t.c.mode = "bad" => Obs(t.s).strsrc = "empty")
+    /\ (t.c.op \in {"SetPresentationPolicy", "SetEqualityPolicy", "SetUnmarshaler", "SetMarshaler"} /\ ~t.c.on /\ s.kind # "BASIC"
+          => [t.s EXCEPT !.ppol = FALSE, !.epol = FALSE, !.upol = FALSE, !.mpol = FALSE] = [s EXCEPT !.ppol = FALSE, !.epol = FALSE, !.upol = FALSE, !.mpol = FALSE])
+
 \* C15: Transfer never touches the source; success means dst = dst ++ src
 TransferFrame(s, d, t) ==
   t.c.op = "Transfer" =>
@@ -234,7 +249,7 @@ StepProps ==
   /\ ListLaws(st)
   /\ \A t \in Trans(st, dst) :
         /\ LenDelta(st, t) /\ ReadOnlyFrame(st, t) /\ Inert(st, t) /\ OptIndependence(st, t)
-        /\ NoNestPush(st, t) /\ PolicyDecides(st, t) /\ TransferFrame(st, dst, t)
+        /\ NoNestPush(st, t) /\ PolicyDecides(st, t) /\ TransferFrame(st, dst, t) /\ ClosuresDecide(st, t)
         /\ (t.s.live /\ t.s.cap > 0 => Len(t.s.e) <= t.s.cap)
 
 \* genuine action properties
